@@ -71,6 +71,7 @@ impl Rng {
 fn alphabet(name: &str) -> &'static [&'static str] {
     match name.split('/').next().unwrap_or(name) {
         "escapes" => &["\\", "n", "\n", "\r\n", "'", "\"", "A", "é", "ő", "\u{1F600}", "\u{1F601}", "\t", "tab\\n", "TAB\\N", " "],
+        "keywords" => &["type", "fn", "loop", "match", " ", "x"],
         "rawable" => &["\\", "n", "\n", "'", "''", "ab", "é", " "],
         "calc" => &["1", "23", "+", "-", "*", "/", "(", ")", " "],
         "pos" => &["ab", "é", "=", "+", "\"", "x y", " ", "\n", "# c\n", "7", "k"],
